@@ -16,6 +16,7 @@ import JanetModel.Marsh.EnvBitsetLemmas
 import JanetModel.Marsh.CodeRoundtrip
 import JanetModel.Marsh.AbstractLemmas
 import JanetModel.Asm.InstrLemmas
+import JanetModel.Marsh.CodeData
 
 namespace JanetModel.Props.C09
 open JanetModel.Marsh JanetModel.Gen.Marsh
@@ -394,6 +395,17 @@ example : JanetModel.Asm.decode 0x80010005 = some (.addImmediate, [0, 1, -128]) 
 example : (JanetModel.Asm.decode 0x80010005).bind (fun p => JanetModel.Asm.encode p.1 p.2) = some 0x80010005 := by decide
 /-- the breakpoint bit is not reproduced (so such a word is excluded by `Canonical`) -/
 example : (JanetModel.Asm.decode 0x80010085).bind (fun p => JanetModel.Asm.encode p.1 p.2) = some 0x80010005 := by decide
+
+
+/-- **The code-object model extends the data model**: on a heap without functions, fibers or abstracts, `marshalC` of
+Code.lean computes exactly what `marshalOne` of Graph.lean computes (bytes and reference counter), at every depth budget -
+so `roundtrip_graph` and `roundtrip_code` talk about the same marshaller on data. -/
+theorem code_model_extends_data_model (H : List Obj) (fuel : Nat) (x : Val) (n : Nat) :
+    marshalC fuel (dataHeap H) x ⟨n, 0, 0⟩ = (marshalOne fuel H n x).map fun p => (p.1, ⟨p.2, 0, 0⟩) :=
+  marshalC_data H fuel x n
+
+example : marshalC topFuel (dataHeap exHeap) (.ref 0) ⟨0, 0, 0⟩ = some ([209, 4, 1, 218, 0, 210, 2, 1, 129, 44, 218, 0, 218, 1], ⟨2, 0, 0⟩) := by
+  decide +kernel
 
 
 end JanetModel.Props.C09
